@@ -449,6 +449,10 @@ func c18NewPackage(in c18Input) (key, what string) {
 	if ap.Name != dp.Name {
 		return "c18-newpackage", "package names differ"
 	}
+	// nesting of the finished package scope: inside the universe the caller gave, as in go/ast
+	if (ap.Scope.Outer == au) != (dp.Scope.Outer == du) || (ap.Scope.Outer == nil) != (dp.Scope.Outer == nil) {
+		return "c18-newpackage-scope", fmt.Sprintf("the package scope's Outer: go/ast has the universe given: %v (nil: %v), dst: %v (nil: %v)", ap.Scope.Outer == au, ap.Scope.Outer == nil, dp.Scope.Outer == du, dp.Scope.Outer == nil)
+	}
 	scopeNames := func(m map[string]string) string {
 		var ks []string
 		for k, v := range m {
@@ -580,9 +584,123 @@ var c18CrossFiles = [][]string{
 	{"package p\n\nfunc A() { B() }\n", "package p\n\nfunc B() { A() }\n"},
 }
 
+// c18DecoratePackage: ast.NewPackage over a universe whose map has alias entries (byte -> the
+// object of uint8, rune -> int32: go/ast's Lookup only consults the key) and an importer whose
+// package objects carry member scopes; the package is decorated as a whole and every scope the
+// decorator met must have the same keys as its source, each holding the counterpart of the
+// source's object, with the same nesting
+func c18DecoratePackage(in c18Input) (key, what string) {
+	fset := token.NewFileSet()
+	afs := map[string]*ast.File{}
+	for i, src := range in.Srcs {
+		name := fmt.Sprintf("f%d.go", i)
+		af, err := parser.ParseFile(fset, name, src, parser.ParseComments)
+		if err != nil {
+			return "", ""
+		}
+		afs[name] = af
+	}
+	au := ast.NewScope(nil)
+	for _, n := range []string{"int", "int32", "uint8", "string", "bool", "error"} {
+		au.Insert(ast.NewObj(ast.Typ, n))
+	}
+	for _, n := range []string{"len", "append"} {
+		au.Insert(ast.NewObj(ast.Fun, n))
+	}
+	for _, n := range []string{"nil", "true", "false"} {
+		au.Insert(ast.NewObj(ast.Con, n))
+	}
+	au.Objects["byte"] = au.Lookup("uint8")
+	au.Objects["rune"] = au.Lookup("int32")
+	aimp := func(imports map[string]*ast.Object, path string) (*ast.Object, error) {
+		if o, ok := imports[path]; ok {
+			return o, nil
+		}
+		o := ast.NewObj(ast.Pkg, path[strings.LastIndex(path, "/")+1:])
+		sc := ast.NewScope(nil)
+		sc.Insert(ast.NewObj(ast.Fun, "Println"))
+		sc.Objects["Alias"] = sc.Lookup("Println")
+		o.Data = sc
+		imports[path] = o
+		return o, nil
+	}
+	ap, aerr := ast.NewPackage(fset, afs, aimp, au)
+	if ap == nil {
+		return "", ""
+	}
+	dec := decorator.NewDecorator(fset)
+	var dn dst.Node
+	var derr error
+	if pm := safely(func() { dn, derr = dec.DecorateNode(ap) }); pm != "" || derr != nil {
+		return "c18-decorate-package", fmt.Sprintf("decorating the package failed: %v %s", derr, pm)
+	}
+	dp := dn.(*dst.Package)
+	seen := map[*ast.Scope]bool{}
+	var cmp func(as *ast.Scope, ds *dst.Scope, where string) string
+	cmp = func(as *ast.Scope, ds *dst.Scope, where string) string {
+		if as == nil || ds == nil {
+			if (as == nil) != (ds == nil) {
+				return where + ": one scope is nil, its counterpart is not"
+			}
+			return ""
+		}
+		if seen[as] {
+			return ""
+		}
+		seen[as] = true
+		if dec.Dst.Scopes[as] != ds {
+			return where + ": the dst scope is not the recorded counterpart of the ast scope"
+		}
+		var ak, dk []string
+		for k := range as.Objects {
+			ak = append(ak, k)
+		}
+		for k := range ds.Objects {
+			dk = append(dk, k)
+		}
+		sort.Strings(ak)
+		sort.Strings(dk)
+		if strings.Join(ak, " ") != strings.Join(dk, " ") {
+			return fmt.Sprintf("%s: members differ: go/ast scope has [%s], its dst counterpart [%s]", where, strings.Join(ak, " "), strings.Join(dk, " "))
+		}
+		for _, k := range ak {
+			ao, do := as.Objects[k], ds.Objects[k]
+			if dec.Dst.Objects[ao] != do || ao.Name != do.Name || int(ao.Kind) != int(do.Kind) {
+				return fmt.Sprintf("%s: entry %q holds %s %s, its dst counterpart %s %s (recorded counterpart: %v)", where, k, ao.Kind, ao.Name, do.Kind, do.Name, dec.Dst.Objects[ao] == do)
+			}
+			if asc, ok := ao.Data.(*ast.Scope); ok {
+				dsc, _ := do.Data.(*dst.Scope)
+				if w := cmp(asc, dsc, where+"."+k+".Data"); w != "" {
+					return w
+				}
+			}
+		}
+		return cmp(as.Outer, ds.Outer, where+".Outer")
+	}
+	if w := cmp(ap.Scope, dp.Scope, "Package.Scope"); w != "" {
+		return "c18-scope-membership", w
+	}
+	for name, af := range afs {
+		if w := cmp(af.Scope, dp.Files[name].Scope, name+".Scope"); w != "" {
+			return "c18-scope-membership", w
+		}
+	}
+	for path, ao := range ap.Imports {
+		do := dp.Imports[path]
+		if do == nil || dec.Dst.Objects[ao] != do {
+			return "c18-scope-membership", "Package.Imports[" + path + "] is not the counterpart of the source's entry"
+		}
+	}
+	_ = aerr
+	return "", ""
+}
+
 func c18Check(in c18Input) (key, what string) {
 	if in.Mode == "newpackage" {
 		return c18NewPackage(in)
+	}
+	if in.Mode == "decorate-package" {
+		return c18DecoratePackage(in)
 	}
 	if in.Mode == "crossfile-one" {
 		return c18CrossFile(in, false)
@@ -622,6 +740,23 @@ func c18Prop(c *Ctx) {
 					c.Res.fail(key, what, in)
 				}
 			}
+		}
+	}
+	for i := 0; i < c.N(12); i++ {
+		in := c18Input{Mode: "decorate-package"}
+		n := 1 + c.Rng.Intn(3)
+		for _, j := range c.Rng.Perm(len(c18PkgFiles))[:n] {
+			if j != 3 {
+				in.Srcs = append(in.Srcs, c18PkgFiles[j])
+			}
+		}
+		in.Srcs = append(in.Srcs, "package p\n\nvar bs []byte\n\nvar r rune = 'x'\n\nfunc conv(s string) int32 { return int32(len([]uint8(s))) }\n")
+		c.Res.Evaluations++
+		b, _ := json.Marshal(in)
+		c.Res.seen(string(b))
+		c.Res.hist("c18", "decorate-package (universe and import scopes with alias entries)")
+		if key, what := c18Check(in); key != "" {
+			c.Res.fail(key, what, in)
 		}
 	}
 	imps := []string{"nil", "ok", "fail", "failsome"}
